@@ -223,6 +223,9 @@ pub struct Entry {
     pub schema_bytes: fn(u32, u32) -> Vec<u8>,
     /// C04 direct oracle (bulk containers of this type vs element-wise encoding)
     pub bulk: fn(&str, &mut Rng, usize, u32) -> Vec<String>,
+    /// C17: generate a value, walk it through `Introspect`, run `ncmds` navigation commands:
+    /// (direct violations, request, reply, node count)
+    pub intro: fn(&str, &mut Rng, usize, usize) -> (Vec<String>, String, String, usize),
 }
 
 impl Entry {
@@ -239,12 +242,22 @@ fn gen_enc_impl<T: ZooVal + Serialize>(r: &mut Rng, sz: usize, ver: u32) -> (Str
     (wire, canon, res)
 }
 
+fn intro_impl<T: ZooVal + Introspect>(name: &str, r: &mut Rng, sz: usize, ncmds: usize) -> (Vec<String>, String, String, usize) {
+    let x = T::gen(r, sz);
+    let mut viol = Vec::new();
+    let mut budget = 20000usize;
+    let kids = crate::intro::walk(&x, "", &mut budget, &mut viol);
+    let (req, reply, v2) = crate::intro::nav_case(&x, &kids, r, ncmds, name);
+    viol.extend(v2);
+    (viol, req, reply, 20000 - budget)
+}
+
 fn gen_save_impl<T: ZooVal + Serialize + WithSchema>(r: &mut Rng, sz: usize, ver: u32, kind: Kind) -> (String, String, Result<Vec<u8>, String>) {
     let x = T::gen(r, sz);
     (x.sx(false), x.sx(true), save_container(kind, ver, &x))
 }
 
-pub fn entry<T: ZooVal + Serialize + Deserialize + Packed + WithSchema + 'static>(
+pub fn entry<T: ZooVal + Serialize + Deserialize + Packed + WithSchema + Introspect + 'static>(
     name: &str,
     versions: &[u32],
     family: Option<(&str, u32)>,
@@ -265,6 +278,33 @@ pub fn entry<T: ZooVal + Serialize + Deserialize + Packed + WithSchema + 'static
         load: load_container::<T>,
         schema_bytes: schema_bytes::<T>,
         bulk: bulk_check::<T>,
+        intro: intro_impl::<T>,
+    }
+}
+
+/// for the few types that do not implement `Introspect` (`Cell`)
+pub fn entry_ni<T: ZooVal + Serialize + Deserialize + Packed + WithSchema + 'static>(
+    name: &str,
+    versions: &[u32],
+    family: Option<(&str, u32)>,
+    tags: &[&'static str],
+) -> Entry {
+    Entry {
+        name: name.to_string(),
+        versions: versions.to_vec(),
+        family: family.map(|(f, v)| (f.to_string(), v)),
+        tags: tags.to_vec(),
+        defs: T::defs,
+        ty_sx: T::ty_sx,
+        gen_enc: gen_enc_impl::<T>,
+        dec: bare_dec::<T>,
+        packed: |v| unsafe { T::repr_c_optimization_safe(v).is_yes() },
+        mem: || (std::mem::size_of::<T>(), std::mem::align_of::<T>()),
+        gen_save: gen_save_impl::<T>,
+        load: load_container::<T>,
+        schema_bytes: schema_bytes::<T>,
+        bulk: bulk_check::<T>,
+        intro: |_, _, _, _| (Vec::new(), String::new(), String::new(), 0),
     }
 }
 
